@@ -450,6 +450,38 @@ func evalC20(sc *Scenario, sim *Sim) ([]Violation, bool, string) {
 			}
 		}
 	}
+	// the listing itself may have arrived with a flipped bit and still be well-formed JSON: what the client was told
+	// about a release (its tag) is then what counts, the catalogue model is corrected accordingly
+	const listingURL = "https://api.github.com/repos/coreruleset/crs-toolchain/releases"
+	listingFlips := 0
+	for _, e := range r.Trace {
+		if e.Kind == "NET" && len(e.Fields) >= 3 && e.Fields[2] == "FAULT:flip" && e.Fields[1] == listingURL {
+			listingFlips++
+		}
+	}
+	if listingFlips%2 == 1 {
+		for _, rt := range routes {
+			if rt.URL != listingURL || rt.FromNth > 1 {
+				continue
+			}
+			body, _ := base64.StdEncoding.DecodeString(rt.BodyB64)
+			var got []struct {
+				ID  int    `json:"id"`
+				Tag string `json:"tag_name"`
+			}
+			if json.Unmarshal(flipBit(body), &got) == nil {
+				for _, g := range got {
+					for ri := range p.Releases {
+						if p.Releases[ri].ID == g.ID && p.Releases[ri].Tag != g.Tag {
+							sim.Stats.probe("listing-flip-changed-a-tag")
+							p.Releases[ri].Tag = g.Tag
+						}
+					}
+				}
+			}
+			break
+		}
+	}
 	run := parseSem(p.Running)
 	// which assets would be a legitimate installation?
 	type cand struct {
